@@ -155,9 +155,12 @@ class CharacterClass(MutableSet[int]):
         if isinstance(other, CharacterClass):
             if self.negative:
                 if other.negative:
+                    # (P | ~N) - (P2 | ~N2) = ((P & N2) | (N2 - N)) - P2
+                    self.positive &= other.negative
                     self.positive |= (other.negative - self.negative)
                     self.negative.clear()
-                self.negative |= other.positive
+                else:
+                    self.negative |= other.positive
             elif other.negative:
                 self.positive &= other.negative
             self.positive -= other.positive
@@ -180,7 +183,7 @@ class CharacterClass(MutableSet[int]):
                 elif part[-1].islower():
                     self.positive |= value()
                 else:
-                    self.negative |= value()
+                    self._add_complement(value())
             elif part.startswith('\\p') or part.startswith('\\P'):
                 if self._re_unicode_ref.search(part) is None:
                     raise RegexError("wrong Unicode block specification %r" % part)
@@ -196,9 +199,19 @@ class CharacterClass(MutableSet[int]):
                     if part.startswith('\\p'):
                         self.positive |= subset
                     else:
-                        self.negative |= subset
+                        self._add_complement(subset)
             else:
                 self.positive.update(part)
+
+    def _add_complement(self, subset: UnicodeSubset) -> None:
+        """Adds the complement of a subset: the class is positive | ~negative,
+        and ~N | ~S = ~(N & S)."""
+        if not self.negative:
+            self.negative |= subset
+        else:
+            self.negative -= UnicodeSubset(subset.complement())
+            if not self.negative:
+                self.positive = UnicodeSubset([(0, maxunicode + 1)])
 
     def discard(self, charset: Union[int, str]) -> None:
         if isinstance(charset, int):
@@ -245,7 +258,11 @@ class CharacterClass(MutableSet[int]):
         self.negative.clear()
 
     def complement(self) -> None:
-        if self.positive or self.negative:
+        if self.negative:
+            # ~(P | ~N) = N - P
+            self.positive = self.negative - self.positive
+            self.negative = UnicodeSubset()
+        elif self.positive:
             self.positive, self.negative = self.negative, self.positive
         else:
             self.positive.codepoints = [(0, maxunicode + 1)]
